@@ -7,7 +7,7 @@
  *         mark == size == my_size re-established.
  * PART 2: heapify() from any state: n <= NMAX elements, [0,mark) a heap, arbitrary tail.
  * PART 3: reheap() from any non-empty state (top already moved out; the last element is sifted down from the root).
- * -DEXC (unit compiled with exceptions, element type Elem whose COPY may throw): PART 1 with a symbolic fault position:
+ * -DEXC (unit compiled with exceptions, element type Elem whose COPY may throw): PART 1 with a fault position FAULT (concrete per query, 0 = none):
  *         the FAULT-th element copy of the batch throws. Post: no exception leaves handle_operations; exactly the push whose
  *         copy threw is FAILED and left no element behind; every other operation of the batch is unaffected (same oracles,
  *         with the failed push treated as absent). PART 4: the public push() end to end: a throwing copy reaches this caller
@@ -137,7 +137,7 @@ int main(void) {
                                   vp_op_init(ops[p], ELEMP(&elem[p]), kind[p], next); next = ops[p]; }
   MK(2) MK(1) MK(0)
 #ifdef EXC
-  { int ncp = (B0 == 1) + (B1 == 1) + (B2 == 1); fault_at = (int)vp_nd_range(0, ncp); }
+  fault_at = FAULT;   /* concrete per query (0 = no fault), so that the witness proves the throwing path itself reaches the end */
 #endif
   vp_q_handle(Q, next);
   int npush = 0, npop = 0;
@@ -168,7 +168,7 @@ int main(void) {
   REP3(CVP)
 #elif PART == 4 && defined(EXC)
   /* public push() end to end, sequentially: 1st push with a copy that may throw, 2nd push without fault */
-  fault_at = (int)vp_nd_range(0, 1);
+  fault_at = FAULT;
   int a = nd_int(), b = nd_int();
   u32 threw = vp_q_push_catch(Q, (u32)a);
   VP_ASSERT(vp_exc == 0, "exception pending after the catching caller");
